@@ -137,6 +137,11 @@ impl ser::Serializer for Ser {
     type SerializeStruct = MapB;
     type SerializeStructVariant = MapB;
 
+    /// not a textual format: values that have a special human-readable encoding (non-finite
+    /// floats of `SerializableValue`) must show up here as themselves
+    fn is_human_readable(&self) -> bool {
+        false
+    }
     fn serialize_bool(self, v: bool) -> Result<Tree, Never> {
         Ok(Tree::Bool(v))
     }
